@@ -27,6 +27,7 @@ class CsClass:
         self.name, self.kind, self.derived = name, kind, derived
         self.attrs = []
         self.members = {}  # wire -> dict(type, nullable, ident, attrs, default)
+        self.member_count = {}  # wire -> number of data members declaring it
         self.ctor_assigned = set()
         self.ctor_params = []
         self.enum_values = []  # (name, value)
@@ -97,6 +98,7 @@ def parse_file(lines):
                 if dm:
                     wire = dm.group("name")
             if wire is not None:
+                cls.member_count[wire] = cls.member_count.get(wire, 0) + 1
                 cls.members[wire] = {"type": m.group("type"), "nullable": bool(m.group("q")), "ident": m.group("ident"), "attrs": [a for a in pending if not DATAMEMBER.match(a)], "default": m.group("default")}
             pending = []
             continue
@@ -181,7 +183,7 @@ def spec_rows(S):
             w = p["name"]
             na = S.null_admitting(p["type"])
             opt = bool(p.get("optional"))
-            a[("class", n, w, "member")] = True
+            a[("class", n, w, "member")] = 1
             try:
                 a[("class", n, w, "type")] = cs_type(S, p["type"])
             except Unmappable as e:
@@ -223,7 +225,7 @@ def impl_rows(S, classes):
             continue
         b[("class", n, "", "exists")] = cname
         for w, mem in c.members.items():
-            b[("class", n, w, "member")] = True
+            b[("class", n, w, "member")] = c.member_count.get(w, 1)
             b[("class", n, w, "type")] = mem["type"]
             b[("class", n, w, "nullable")] = mem["nullable"]
             b[("class", n, w, "null_ignoring")] = any(x.replace(" ", "") == "[JsonProperty(NullValueHandling=NullValueHandling.Ignore)]" for x in mem["attrs"])
